@@ -569,7 +569,11 @@ func vfWorkerRun(t *testing.T, journal string) {
 	}
 	runOne := func(sc *vfScenario, idx int64) {
 		vfJournal(journal, sc.summary())
-		res := vfExecute(t, sc, false)
+		dump := os.Getenv("VF_DUMPTRACE")
+		res := vfExecute(t, sc, dump != "")
+		if dump != "" {
+			os.WriteFile(fmt.Sprintf("%s.%d", dump, idx), []byte(sc.summary()+"\n"+strings.Join(res.Trace, "\n")+"\n"), 0o644)
+		}
 		out.Runs++
 		out.ByClass[sc.Class]++
 		out.Steps += int64(res.Steps)
